@@ -148,6 +148,155 @@ class Program:
                         out |= self._assigned_in(h.body(), cls, h.cls)
         return out
 
+    # -------- syntactic write closure: what a call graph can possibly write ------------------------------
+    LIST_MUTATORS = {"append", "remove", "pop", "sort", "insert", "extend", "clear", "reverse"}
+
+    def _local_effects(self, fi):
+        """(attribute names stored, method / function names called, mutates-a-container?) for one function"""
+        key = id(fi.node)
+        cache = self.__dict__.setdefault("_eff_cache", {})
+        if key in cache:
+            return cache[key]
+        attrs, called, mut = set(), set(), False
+        cont = set()        # attribute names through which a mutated container is reached; None inside = unknown
+
+        fresh_locals = self._fresh_container_locals(fi)
+
+        def reach(t):
+            """the attribute through which the container expression t is reached, 'Local' for a list that is
+            certainly created in this function, None if unknown"""
+            depth = 0
+            while isinstance(t, ast.Subscript):
+                t = t.value
+                depth += 1
+            if isinstance(t, ast.Attribute):
+                return (t.attr, depth)
+            if isinstance(t, ast.Name) and t.id in fresh_locals:
+                return "$Local"
+            if isinstance(t, (ast.List, ast.ListComp, ast.Dict)):
+                return "$Local"
+            return None
+
+        ptypes = self.param_types(fi) if getattr(self, "param_types", None) else {}
+
+        def owner(t):
+            # `self.attr = ...` inside a method of class C writes an object of C's family; a parameter whose
+            # class is declared in the function's contract writes an object of that class
+            if isinstance(t.value, ast.Name) and t.value.id == "self" and fi.cls is not None:
+                return fi.cls
+            if isinstance(t.value, ast.Name) and t.value.id in ptypes:
+                return ptypes[t.value.id]
+            return None
+        for n in ast.walk(fi.node):
+            if isinstance(n, ast.Attribute) and isinstance(n.ctx, (ast.Store, ast.Del)):
+                attrs.add((owner(n), n.attr))
+            elif isinstance(n, ast.Subscript) and isinstance(n.ctx, (ast.Store, ast.Del)):
+                mut = True
+                cont.add(reach(n.value))
+            elif isinstance(n, ast.AugAssign):
+                if isinstance(n.target, ast.Attribute):
+                    attrs.add((owner(n.target), n.target.attr))
+                elif isinstance(n.target, ast.Subscript):
+                    mut = True
+                    cont.add(reach(n.target.value))
+                elif isinstance(n.target, ast.Name) and isinstance(n.op, ast.Add):
+                    # `x += [..]` mutates in place when x is a list: a list created here, or possibly a parameter
+                    if n.target.id in fresh_locals:
+                        mut = True
+                        cont.add("$Local")
+                    elif n.target.id in fi.params:
+                        mut = True
+                        cont.add(None)
+            elif isinstance(n, ast.Call):
+                f = n.func
+                nargs = len(n.args) + len(n.keywords)
+                if isinstance(f, ast.Attribute):
+                    recv = None
+                    if isinstance(f.value, ast.Name) and f.value.id == "self" and fi.cls is not None:
+                        recv = fi.cls
+                    elif isinstance(f.value, ast.Name) and f.value.id in ptypes:
+                        recv = ptypes[f.value.id]
+                    called.add((f.attr, nargs, recv))
+                    if f.attr in self.LIST_MUTATORS:
+                        mut = True
+                        cont.add(reach(f.value))
+                elif isinstance(f, ast.Name):
+                    called.add((f.id, nargs, None))
+        cache[key] = (attrs, called, mut, cont)
+        return cache[key]
+
+    def _fresh_container_locals(self, fi):
+        """local names that are only ever bound to containers created in this function"""
+        binds = {}
+        params = set(fi.params)
+        for n in ast.walk(fi.node):
+            if isinstance(n, ast.Assign):
+                for t in n.targets:
+                    if isinstance(t, ast.Name):
+                        v = n.value
+                        ok = isinstance(v, (ast.List, ast.ListComp, ast.Dict, ast.DictComp)) or (
+                            isinstance(v, ast.Call) and isinstance(v.func, ast.Name) and v.func.id in ("list", "sorted", "dict", "set")) or (
+                            isinstance(v, ast.Subscript) and isinstance(v.slice, ast.Slice))
+                        binds.setdefault(t.id, []).append(ok)
+            elif isinstance(n, (ast.For, ast.comprehension)):
+                t = n.target
+                for x in ast.walk(t):
+                    if isinstance(x, ast.Name):
+                        binds.setdefault(x.id, []).append(False)
+        return {k for k, v in binds.items() if all(v) and k not in params}
+
+    def write_closure(self, fi):
+        """attribute names (and whether containers) that fi or anything it may call -- resolved by NAME over
+        every repo class, i.e. a syntactic over-approximation of dynamic dispatch -- can write.  A call to
+        a name that is not a repo function (a user callable, a library) makes the closure open (None)."""
+        cache = self.__dict__.setdefault("_wc_cache", {})
+        key = id(fi.node)
+        if key in cache:
+            return cache[key]
+        by_name = self.__dict__.get("_by_name")
+        if by_name is None:
+            by_name = {}
+            for c in self.classes.values():
+                for m in c.methods.values():
+                    by_name.setdefault(m.name, []).append(m)
+            for f in self.functions.values():
+                by_name.setdefault(f.name, []).append(f)
+            for cname in self.classes:
+                init = self.classes[cname].methods.get("__init__")
+                if init is not None:
+                    by_name.setdefault(cname, []).append(init)
+            self.__dict__["_by_name"] = by_name
+        attrs, mut = {}, set()
+        seen, stack = set(), [fi]
+        while stack:
+            g = stack.pop()
+            if id(g.node) in seen:
+                continue
+            seen.add(id(g.node))
+            a, called, m, cont = self._local_effects(g)
+            mut |= cont
+            for (own, name) in a:
+                # attr -> set of owner classes, or None when some write has an unknown receiver
+                if own is None:
+                    attrs[name] = None
+                elif attrs.get(name, set()) is not None:
+                    attrs.setdefault(name, set()).add(own)
+            for (name, nargs, recv) in called:
+                for h in by_name.get(name, []):
+                    # arity filter: the callee must be able to take that many arguments
+                    hp = [p for p in h.params if p != "self"]
+                    required = len(hp) - len(h.defaults)
+                    if h.node.args.kwarg is None and h.node.args.vararg is None and not (required <= nargs <= len(hp)):
+                        continue
+                    # receiver filter: a call on `self` (or on a parameter of declared class) reaches that class family only
+                    if recv is not None and h.cls is not None:
+                        fam = set(self.mro(recv)) | set(self.subclasses(recv))
+                        if h.cls not in fam:
+                            continue
+                    stack.append(h)
+        cache[key] = (attrs, mut)
+        return cache[key]
+
     def tree_hash(self):
         h = hashlib.sha256()
         for rel in MODULES:
